@@ -24,3 +24,31 @@ Theorem C12_tikhonov_optimum (R : realFieldType) (p q r : nat) (Psi : 'M[R]_(p,q
   normal_eq Psi Thp alpha U -> 0 <= alpha -> forall V, cost Psi Thp alpha U <= cost Psi Thp alpha V.
 Proof. exact: C06_optimal. Qed.
 Print Assumptions C12_tikhonov_optimum.
+
+(* ---------- about the code itself: the Schur-complement block that LmiEdmd._create_base_problem adds for each inv_method, as
+   REGENERATED from the source on this run (tools/gen_lmi_cost.py -> Gen/LmiCostGen.v; U and Z are the variables of the problem, Z is
+   also constrained to be >> picos_eps, the objective is c - 2 tr(U G^T) + tr Z with c, G, H from _calc_c_G_H, and K is what
+   the method's _calc_ helper returns for H - a numeric oracle checked on every fit).  For the five factor methods it IS the
+   block of C12_schur, hence a feasible Z dominates U (K K^T) U^T *)
+From PK Require Import BridgeLmiCost.
+From PK.Gen Require Import LmiCostGen.
+
+Theorem C12_generated_blocks (F : fieldType) (r p k : nat) (Z : 'M[F]_r) (U : 'M[F]_(r, p)) (K : 'M[F]_(p, k)) (Kinv : 'M[F]_p) :
+  let blk := block_mx Z (U *m K) (U *m K)^T 1%:M in
+  (gen_cost_block_eig Z U K = blk /\ gen_cost_block_ldl Z U K = blk /\ gen_cost_block_chol Z U K = blk
+   /\ gen_cost_block_sqrt Z U K = blk /\ gen_cost_block_svd Z U K = blk)
+  /\ gen_cost_block_inv Z U Kinv = block_mx Z U U^T Kinv /\ gen_cost_block_pinv Z U Kinv = block_mx Z U U^T Kinv.
+Proof. split; [exact: gen_cost_factor_blocks|exact: gen_cost_inverse_blocks]. Qed.
+Print Assumptions C12_generated_blocks.
+
+Theorem C12_generated_schur (R : realFieldType) (r p : nat) (Z : 'M[R]_r) (U : 'M[R]_(r, p)) (K : 'M[R]_p) :
+  psd (gen_cost_block_chol Z U K) -> loewner_le (U *m (K *m K^T) *m U^T) Z.
+Proof.
+  have [_ [_ [-> _]]] := gen_cost_factor_blocks Z U K. exact: schur_loewner.
+Qed.
+Print Assumptions C12_generated_schur.
+
+Theorem C12_generated_objective (F : fieldType) (r p : nat) (c : F) (G U : 'M[F]_(r, p)) (Z : 'M[F]_r) :
+  gen_cost_objective c G U Z = c - 2%:R * \tr (U *m G^T) + \tr Z.
+Proof. by []. Qed.
+Print Assumptions C12_generated_objective.
